@@ -179,6 +179,11 @@ func (idx *timeSeriesIndex) ExpireTimeSeriesIDs(memTimeSeriesIDs *roaring.Bitmap
 
 // GC clears expired time series ids.
 func (idx *timeSeriesIndex) GC(gcTimestamp int64) {
+	// hold the lock over the scan of the memory index too: a series indexed(by a write) after the scan and
+	// before the time series index is rebuilt would be dropped from it, its data can no longer be found/flushed.
+	idx.lock.Lock()
+	defer idx.lock.Unlock()
+
 	activeIDs := roaring.New()
 	// gc memory time series index
 	idx.hashes.Range(func(key, value any) bool {
@@ -195,8 +200,6 @@ func (idx *timeSeriesIndex) GC(gcTimestamp int64) {
 
 	active := activeIDs.GetCardinality()
 
-	idx.lock.Lock()
-	defer idx.lock.Unlock()
 	// gc time series index
 	if active == 0 && !idx.ids.IsEmpty() {
 		idx.ids = imap.NewIntMap[uint32]()
